@@ -11,6 +11,14 @@ T_PATHS = 'bounded-exhaustive exploration of the row transition system (all row 
 T_HIST = 'explicit-state BFS over call histories on live objects with reflection snapshots'
 
 CHECKS = {
+    'C02': ("Lock-step refinement of kernpy's importer against the SpineModel: explicit-state BFS to closure over the merged (layout, implementation fingerprint) "
+            "state graph under a column cap, every transition (data, null, clef, tandem, comment, barline, global comment, every single/double split, every legal "
+            "join incl. runs of 3 and two runs in a row, every single termination, terminate-all) replayed by importing the history and comparing the whole tree "
+            "(stage per line, node per cell, parent, header, spine id, literal text, children order, public spine ids/types/token cells); in every reached state each row "
+            "kind is offered with every kind of surplus cell (must raise). Plus unmerged enumeration of all operator sequences to depth 4/5 and literal cells (quote, comma, "
+            "space, non-ASCII) in every column and position.",
+            'Trusted: kv/model.py SpineModel. Bounds: <=3 (thorough 4) spines, column cap 4-6, depth 4/5 for unmerged paths. Merging argument in DESIGN §3 C02.',
+            'explicit-state BFS to closure with lock-step refinement check against a reference model + bounded-exhaustive path enumeration', 'DESIGN.md §3 C02'),
     'C09': ("All 25 200 (pitch, interval, direction) edges of the property's grid and all depth-2 paths of the transition graph they induce "
             "(every second edge from every reached spelling) are executed on kernpy.transpose / transpose_agnostics and compared with an independent "
             "letter/semitone model; inverse, unison, octave, fourth+fifth and general composition laws are evaluated on every path. Decided on the stated grid.",
